@@ -75,7 +75,7 @@ static std::string assignment(vf::Rng& r, Expect& e, bool cmdline, std::string& 
     case 8: { ++e.queries; static const char* ns[] = {"iopt1", "dopt1", "sopt1", "ialias2", "lim:d2", "oolsyn"}; kind = "query"; return std::string(ns[r.below(6)]) + (r.chance(1, 2) ? "=?" : " = ?"); }
     default: {   // error: unknown name or value given to a flag
       ++e.errors;
-      if (r.chance(1, 2)) { kind = "error-unknown-name"; static const char* ns[] = {"nosuchoption", "iopt", "iopt11", "wc:only", "Xopt"}; return std::string(ns[r.below(5)]) + "=" + std::to_string(r.range(0, 99)); }
+      if (r.chance(1, 2)) { kind = "error-unknown-name"; static const char* ns[] = {"nosuchoption", "iopt", "iopt11", "wc:only", "Xopt", "ialias", "ia", "oolsy", "o", "dali", "sal", "doo", "ialias22", "dalias_", "tech:i", "lim:d", "str:s"}; return std::string(ns[r.below(17)]) + "=" + std::to_string(r.range(0, 99)); }
       kind = "error-flag-with-value"; return std::string("flagopt=") + std::to_string(r.range(0, 99)); }
   }
 }
